@@ -40,8 +40,9 @@ def impl_all(arr):
 
 def gen_arrays(rep, tier):
     rng = rep.rng
-    nrand = 250 if tier == 'quick' else 6000
-    nexh = 60 if tier == 'quick' else 4000
+    scale = getattr(rep, 'scale', 1)
+    nrand = 250 * scale if tier == 'quick' else 6000
+    nexh = 60 * scale if tier == 'quick' else 4000
     shapes = G.small_shapes_1level()
     out = []
     # (a) small-scope enumeration for the one-level kinds: arrays of <=3 elements, each
